@@ -12,7 +12,7 @@ from ledger import vdrive
 CLASSES = {"null", "emptyString", "negative", "zero", "gtInt64", "gtUint64", "negativeString", "hugeString", "notANumberString", "emptyObject",
            "emptyArray", "boolean", "longString", "shortAddress", "badHexAddress", "unknownCurrency", "nullValueAmount", "float", "delete"}
 MC = dict(Classes=CLASSES, Paths={"check", "honest", "direct"}, Outcomes={"reject", "accept"})
-FAMILIES = ["benign", "stake", "deleg"]
+FAMILIES = ["benign", "stake", "deleg", "alleg", "eth"]
 
 
 def run(ctx, replay):
@@ -20,7 +20,7 @@ def run(ctx, replay):
     ctx.sany("Hostile", "Hostile_Trace")
     mc = ctx.tlc("Hostile", "mc.cfg", name="hostile-mc", cfg_text=vlib.cfg_text("HSpec", MC, ["StaysUp"]))
     quick = ctx.quick()
-    n, blocks, per = (4, 10, 3) if quick else (40, 14, 6)
+    n, blocks, per = (3, 10, 3) if quick else (30, 14, 6)
     fams = FAMILIES
     if replay:
         rp = json.load(open(replay))
